@@ -48,7 +48,8 @@ ALL_MIX = ['MIT', 'CTD', 'UCTD']
 
 SEMANTIC = ['pins_dont_fit', 'wire_too_thick', 'clad_too_thick',
             'nonpositive_dimension', 'duct_ge_pitch', 'unequal_outer_ducts',
-            'axial_region_inverted', 'axial_region_overlap', 'missing_bc',
+            'axial_region_inverted', 'axial_region_overlap',
+            'axial_region_outside_core', 'missing_bc',
             'unknown_material', 'unknown_correlation', 'power_negative',
             'power_malformed']
 FILE_FAULTS = ['truncate', 'torn_last_row', 'flip_byte', 'drop_column',
@@ -125,6 +126,22 @@ def apply_semantic(spec, kind, g):
         lo, hi = (a, b) if a['z_lo'] < b['z_lo'] else (b, a)
         hi['z_lo'] = world._r(lo['z_hi'] * g.uniform(0.3, 0.9), 5)
         return f'{t["name"]}: regions overlap ({hi["z_lo"]} < {lo["z_hi"]})'
+    if kind == 'axial_region_outside_core':
+        cands = [x for x in spec['types'] if x.get('axial_regions')]
+        if not cands:
+            return None
+        t = cands[int(g.integers(0, len(cands)))]
+        L = spec['core']['length']
+        top = max(t['axial_regions'], key=lambda r: r['z_hi'])
+        bot = min(t['axial_regions'], key=lambda r: r['z_lo'])
+        if top['z_hi'] >= L and (bot['z_lo'] > 0 or rng.chance(g, 0.7)):
+            top['z_hi'] = world._r(L * (1 + rng.loguniform(g, 1e-3, 0.3)), 6)
+            return (f'{t["name"]}/{top["name"]}: z_hi {top["z_hi"]} above '
+                    f'the core length {L}')
+        if bot['z_lo'] <= 0:
+            bot['z_lo'] = -world._r(L * rng.loguniform(g, 1e-3, 0.3), 6)
+            return f'{t["name"]}/{bot["name"]}: z_lo {bot["z_lo"]} below 0'
+        return None
     if kind == 'missing_bc':
         ps = [p for p in spec['positions'] if p]
         p = ps[int(g.integers(0, len(ps)))]
